@@ -165,11 +165,23 @@ fn floats(ctx: &mut Ctx, n: usize) {
         if f > 0.0 {
             check_literal(ctx, &format!("f+{shortest}"), &want, "float-plus-sign");
         }
+        // the exponent is a digit string of any length: zero padding does not change the value
+        if let Some((mant, exp)) = sci.split_once('e') {
+            let (esign, edigits) = match exp.strip_prefix('-') { Some(d) => ("-", d), None => ("", exp) };
+            let pad = "0".repeat(1 + rng.below(24));
+            check_literal(ctx, &format!("f{mant}e{esign}{pad}{edigits}"), &want, "float-exponent-zero-padded");
+            check_literal(ctx, &format!("f{mant}E{esign}000{edigits}"), &want, "float-exponent-zero-padded");
+        }
     }
     if ctx.mine() {
         check_literal(ctx, "f1e999", &Want::Val(Value::Float(f64::INFINITY)), "float-overflow-to-infinity");
         check_literal(ctx, "f-1e999", &Want::Val(Value::Float(f64::NEG_INFINITY)), "float-overflow-to-infinity");
         check_literal(ctx, "f1e-999", &Want::Val(Value::Float(0.0)), "float-underflow-to-zero");
+        for (t, v) in [("f1e1000", f64::INFINITY), ("f1E1000", f64::INFINITY), ("f-1e+1000", f64::NEG_INFINITY), ("f1e99999999999999999999", f64::INFINITY), ("f1e-1000", 0.0), ("f-1e-1000", -0.0), ("f1e-99999999999999999999", 0.0),
+            ("f0e1000", 0.0), ("f0e99999999999999999999", 0.0), ("f25e0004", 250000.0), ("f25e+0004", 250000.0), ("f25e-0004", 0.0025), ("f1e0000", 1.0), ("f1e00000000000000000000000000000001", 10.0), ("f1e0308", 1e308), ("f1e-0308", 1e-308),
+            ("f.5e0010", 5e9), ("f1.5E0001", 15.0), ("f1e1234", f64::INFINITY), ("f1e-1234", 0.0)] {
+            check_literal(ctx, t, &Want::Val(Value::Float(v)), "float-long-exponent");
+        }
         check_literal(ctx, "f-0", &Want::Val(Value::Float(-0.0)), "float-negative-zero");
         check_literal(ctx, "f0.1", &Want::Val(Value::Float(0.1)), "float-shortest");
         // round-to-nearest-even at the 2^53 boundary
@@ -452,6 +464,21 @@ fn words(ctx: &mut Ctx) {
         "true1", "truex", "nonex", "none1", "falsey", "x0x1", "a1", "a_", "a__b", "A", "Z9", "if1", "in1", "int1", "inty", "integer", "ands", "orx", "o", "an", "el", "then1", "elsee", "somex", "is_", "is_some1", "date", "date_", "to_", "to_upperx"]
     {
         ws.push(w.to_string());
+    }
+    // ordinary words that are NOT keywords must stay identifiers: plausible keyword candidates, method-like names, every 1- and 2-letter word
+    for w in ["starts", "ends", "starts_with", "ends_with", "key", "keys", "val", "value", "values", "not", "xor", "mod", "div", "rem", "len", "length", "size", "count", "let", "fn", "rule", "rules", "match", "elif", "elseif", "null", "nil", "nan", "inf", "infinity", "NaN",
+        "True", "False", "None", "Some", "TRUE", "is", "is_none_", "isnone", "is_null", "has", "have", "with", "without", "where", "when", "unless", "while", "for", "do", "end", "begin", "return", "case", "of", "as", "by", "at", "on", "like", "between", "all", "any", "each", "every",
+        "min", "max", "abs", "sum", "avg", "ceil", "trunc", "sqrt", "pow", "exp", "log", "sign", "neg", "add", "sub", "mult", "mul", "eq", "neq", "ne", "gt", "gte", "ge", "lt", "lte", "le", "bitand", "bitor", "bit_and", "bit_or", "bitwise", "shl", "shr", "not_equals", "equals",
+        "string", "str", "text", "char", "bool", "boolean", "number", "num", "integer", "decimal", "double", "list", "vec", "map", "dict", "object", "index", "idx", "field", "get", "set", "put", "ref", "reference", "symbol", "sym", "func", "function", "call", "apply", "lambda",
+        "now", "today", "time", "timestamp", "dt", "dur", "days", "hours", "minutes", "seconds", "weeks", "months", "years", "millis", "date_time_", "datetimes", "upper", "lower", "to_uppercase", "to_lowercase", "to_string", "to_int", "to_float", "strip", "ltrim", "rtrim", "replace", "split", "join", "concat", "substr", "matches", "regex",
+        "contain", "contained", "includes", "include", "within", "inside", "exists", "defined", "empty", "is_empty", "unwrap", "option", "ok", "err", "error", "fail", "try", "catch", "throw", "assert", "input", "output", "facts", "this", "self", "it", "_", "__", "_0", "_a", "a0", "x_y_z"] {
+        ws.push(w.to_string());
+    }
+    for a in b'a'..=b'z' {
+        ws.push((a as char).to_string());
+        for b in b'a'..=b'z' {
+            ws.push(format!("{}{}", a as char, b as char));
+        }
     }
     ws.sort();
     ws.dedup();
